@@ -138,7 +138,8 @@ def strategy_for(kind):
     def strat(tier):
         big = tier == "thorough"
         if kind == "WFQ":
-            val = st.sampled_from([1, 2, 3, 4, 5, 1.5, 0.5])
+            # weights are shares of any scale: tables whose backlogged weights sum to less than 1 are as legal as integer ones
+            val = kgen.weighted([(st.sampled_from([1, 2, 3, 4, 5, 1.5, 0.5]), 3), (st.sampled_from([0.5, 0.25, 0.125, 0.0625, 0.3]), 1)])
         else:
             val = st.sampled_from([1 / 8, 1 / 4, 1 / 2, 1, 2, 1 / 16, 0.3, 0])
 
